@@ -470,6 +470,141 @@ Proof.
   eapply Forall_impl; [|exact Hps]. intros p. apply part_ok_sharpens.
 Qed.
 
+(* ---------- the sharp proviso is exact ---------- *)
+
+Lemma cons_fst_some x r c' r' : cons_fst x r = Some (c', r') ->
+  exists c1, r = Some (c1, r') /\ c' = x :: c1.
+Proof.
+  destruct r as [[a rest]|]; [|discriminate]. cbn [cons_fst]. intros H. injection H as H1 H2. subst.
+  exists a. split; reflexivity.
+Qed.
+
+(* inside an occurrence of a string without CR nothing that starts with CR can begin *)
+Lemma no_cr_inside (p q : bytes) : Forall (fun x => x <> 13) p ->
+  forall s j, has_prefix p s = true -> j < length p -> has_prefix (13 :: q) (skipn j s) = false.
+Proof.
+  induction p as [|a p IH]; intros Hp s j Hs Hj; [cbn [length] in Hj; lia|].
+  inversion Hp as [|a' p' Ha Hp']; subst.
+  destruct s as [|y s]; [discriminate|]. cbn [has_prefix] in Hs. apply andb_prop in Hs. destruct Hs as [Hay Hs].
+  apply Nat.eqb_eq in Hay. subst y.
+  destruct j as [|j].
+  - cbn [skipn has_prefix]. destruct (Nat.eqb 13 a) eqn:E; [|reflexivity].
+    apply Nat.eqb_eq in E. congruence.
+  - cbn [skipn]. apply (IH Hp' s j Hs). cbn [length] in Hj. lia.
+Qed.
+
+Lemma has_live_nil t : has_live (13 :: t) [] = false.
+Proof. reflexivity. Qed.
+
+(* a live delimiter exists and none starts before position k: one exists from k on *)
+Lemma live_beyond t s : has_live (13 :: t) s = true ->
+  forall k, (forall j, j < k -> has_prefix (13 :: t) (skipn j s) = false) ->
+  has_live (13 :: t) (skipn k s) = true.
+Proof.
+  induction s as [|y s IH]; intros H k Hk.
+  - rewrite has_live_nil in H. discriminate.
+  - destruct k as [|k]; [exact H|].
+    cbn [skipn]. apply IH.
+    + cbn [has_live] in H. apply orb_prop in H. destruct H as [H|H]; [|exact H].
+      apply live_at_prefix in H. pose proof (Hk 0 (Nat.lt_0_succ k)) as H0. cbn [skipn] in H0.
+      rewrite H0 in H. discriminate.
+    + intros j Hj. apply (Hk (S j)). lia.
+Qed.
+
+(* the converse of scan_content_live: with a live delimiter inside, the reader stops early (or fails) *)
+Lemma scan_content_shorter t R' : Forall (fun x => x <> 13) t ->
+  forall c k c' r', k <= length c -> has_live (13 :: t) (skipn k c) = true ->
+  scan_content (13 :: t) k (c ++ 13 :: R') = Some (c', r') -> length c' < length c.
+Proof.
+  intros Ht. induction c as [|x c IH]; intros k c' r' Hk Hl H.
+  - destruct k; cbn [skipn] in Hl; rewrite has_live_nil in Hl; discriminate.
+  - destruct k as [|k].
+    + cbn [skipn] in Hl. cbn [app] in H. rewrite scan_content_step in H.
+      destruct (has_prefix (13 :: t) (x :: c ++ 13 :: R')) eqn:E.
+      * assert (Hpre : has_prefix (13 :: t) (x :: c) = true).
+        { cbn [has_prefix] in E |- *. apply andb_prop in E. destruct E as [E1 E2].
+          rewrite E1. cbn [andb]. exact (prefix_before_cr t Ht c _ E2). }
+        pose proof (has_prefix_length _ _ Hpre) as Hlen.
+        change (x :: c ++ 13 :: R') with ((x :: c) ++ 13 :: R') in H.
+        rewrite (skipn_app_le _ _ _ Hlen), match_after_before_cr in H.
+        match type of H with (if ?m then _ else _) = _ => destruct m eqn:M end.
+        -- injection H as H1 H2. subst c'. cbn [length]. lia.
+        -- apply cons_fst_some in H. destruct H as [c1 [H1 H2]]. subst c'.
+           cbn [length]. apply -> Nat.succ_lt_mono.
+           apply (IH (length (13 :: t) - 1) c1 r'); [cbn [length] in Hlen |- *; unfold bytes, byte in *; lia| |exact H1].
+           assert (Hc : has_live (13 :: t) c = true).
+           { cbn [has_live] in Hl. apply orb_prop in Hl. destruct Hl as [Hl|Hl]; [|exact Hl].
+             unfold live_at in Hl. rewrite M in Hl. rewrite andb_false_r in Hl. discriminate. }
+           apply (live_beyond t c Hc). intros j Hj.
+           cbn [has_prefix] in Hpre. apply andb_prop in Hpre. destruct Hpre as [_ Hpre].
+           apply (no_cr_inside t t Ht c j Hpre). cbn [length] in Hj. unfold bytes, byte in *. lia.
+      * apply cons_fst_some in H. destruct H as [c1 [H1 H2]]. subst c'.
+        cbn [length]. apply -> Nat.succ_lt_mono.
+        apply (IH 0 c1 r'); [lia| |exact H1].
+        cbn [skipn]. cbn [has_live] in Hl. apply orb_prop in Hl. destruct Hl as [Hl|Hl]; [|exact Hl].
+        apply live_at_prefix in Hl. apply (has_prefix_longer _ _ (13 :: R')) in Hl.
+        cbn [app] in Hl. rewrite Hl in E. discriminate.
+    + cbn [skipn] in Hl. cbn [app] in H. rewrite scan_content_skip in H.
+      apply cons_fst_some in H. destruct H as [c1 [H1 H2]]. subst c'.
+      cbn [length]. apply -> Nat.succ_lt_mono.
+      apply (IH k c1 r'); [cbn [length] in Hk; lia|exact Hl|exact H1].
+Qed.
+
+Lemma scan_part_shorter b c R' c' r' : boundary_ok b = true -> no_live_delim b c = false ->
+  scan_part b crlf (c ++ 13 :: R') = Some (c', r') -> length c' < length c.
+Proof.
+  intros Hb Hc H.
+  assert (Ht : Forall (fun x => x <> 13) (10 :: dash_boundary b)).
+  { constructor; [discriminate|]. exact (db_no_cr b Hb). }
+  unfold no_live_delim in Hc. apply negb_false_iff in Hc.
+  unfold crlf in Hc. cbn [app has_live] in Hc.
+  assert (Hcases : has_prefix (dash_boundary b) c && match_after (skipn (length (dash_boundary b)) c) = true \/
+                   has_live (13 :: 10 :: dash_boundary b) c = true).
+  { apply orb_prop in Hc. destruct Hc as [Hc|Hc].
+    - left. unfold live_at in Hc. cbn [has_prefix Nat.eqb andb length skipn] in Hc. exact Hc.
+    - apply orb_prop in Hc. destruct Hc as [Hc|Hc]; [|right; exact Hc].
+      unfold live_at in Hc. cbn [has_prefix Nat.eqb andb] in Hc. discriminate. }
+  clear Hc. unfold scan_part in H.
+  destruct (has_prefix (dash_boundary b) (c ++ 13 :: R')) eqn:E.
+  - assert (Hpre : has_prefix (dash_boundary b) c = true) by exact (prefix_before_cr _ (db_no_cr b Hb) c _ E).
+    pose proof (has_prefix_length _ _ Hpre) as Hlen.
+    rewrite (skipn_app_le _ _ _ Hlen), match_after_before_cr in H.
+    match type of H with (if ?m then _ else _) = _ => destruct m eqn:M end.
+    + injection H as H1 H2. subst c'. rewrite db_head in Hlen. cbn [length] in Hlen |- *. lia.
+    + unfold crlf in H. cbn [app] in H.
+      apply (scan_content_shorter (10 :: dash_boundary b) R' Ht c _ c' r' Hlen); [|exact H].
+      destruct Hcases as [Hs|Hs]; [rewrite Hpre in Hs; cbn [andb] in Hs; discriminate|].
+      apply (live_beyond _ c Hs). intros j Hj.
+      exact (no_cr_inside _ _ (db_no_cr b Hb) c j Hpre Hj).
+  - unfold crlf in H. cbn [app] in H.
+    apply (scan_content_shorter (10 :: dash_boundary b) R' Ht c 0 c' r' (Nat.le_0_l _)); [|exact H].
+    cbn [skipn]. destruct Hcases as [Hs|Hs]; [|exact Hs].
+    apply andb_prop in Hs. destruct Hs as [Hs _].
+    apply (has_prefix_longer _ _ (13 :: R')) in Hs. rewrite Hs in E. discriminate.
+Qed.
+
+Lemma rest_starts_cr b ps : exists R', mp_render_rest b ps = 13 :: R'.
+Proof. destruct ps as [|p ps]; eexists; reflexivity. Qed.
+
+(* THE PROVISO IS EXACT (first part): a content with a live delimiter never comes back as written *)
+Theorem multipart_live_delimiter_breaks : forall b h c ps fuel,
+  boundary_ok b = true -> hdr_ok h = true -> no_live_delim b c = false ->
+  mp_parse fuel b (mp_render b ((h, c) :: ps)) <> Some ((h, c) :: ps).
+Proof.
+  intros b h c ps fuel Hb Hh Hc. unfold mp_parse.
+  destruct b as [|x b'] eqn:Eb; [discriminate|]. rewrite <- Eb in *. clear Eb x b'.
+  destruct fuel as [|f]; [discriminate|].
+  cbn [mp_parts mp_render]. unfold mp_part. cbn [fst snd]. rewrite <- !app_assoc.
+  rewrite next_part_first; [|exact Hb|lia].
+  rewrite (hdr_block_written h _ Hh).
+  destruct (hdr_valid h); [|discriminate].
+  destruct (rest_starts_cr b ps) as [R' HR]. rewrite HR.
+  destruct (scan_part b crlf (c ++ 13 :: R')) as [[c' r']|] eqn:Es; [|discriminate].
+  pose proof (scan_part_shorter b c R' c' r' Hb Hc Es) as Hlt.
+  destruct (mp_parts f b crlf false r') as [qs|]; [|discriminate].
+  intros Heq. injection Heq as H1 H2. subst c'. lia.
+Qed.
+
 (* what the handler is handed: the content found under a header text is the content written under it *)
 Corollary multipart_content_roundtrip : forall b parts key,
   boundary_ok b = true -> Forall (part_ok b) parts ->
